@@ -31,6 +31,8 @@ pub fn text(rng: &mut Rng) -> String {
     };
     // rare values: Unicode blanks, a byte order mark, last-plane characters, ... (never a line break)
     let t2 = sprinkle(rng, &t, 12);
+    // literals of the code under test (dict.rs), alone or joined to the text
+    let t2 = crate::dict::dictify(rng, &t2, 14);
     if t2.contains(['\n', '\r']) { t } else { t2 }
 }
 pub fn int(rng: &mut Rng) -> i64 {
@@ -223,6 +225,17 @@ impl StreamPlan {
                 q.push(json!({"chunks": cut(&s, &[rng.range(1, l - 1), l - 2])}));
                 round += 1;
                 continue;
+            }
+            // scale: one record larger than 1 MiB (a cap on what may be pending without a separator
+            // would show here and nowhere below), written in pieces of 300 000 bytes; once per plan
+            if round == 0 && q.is_empty() && want >= 1000 {
+                let mut vals = entry_values(rng);
+                for v in vals.iter_mut() { v.truncate(2); for x in v.iter_mut() { if x.len() > 200 { *x = "x".into(); } } }
+                vals[5] = (0..30000).map(|k| format!("line {} of a long description \u{e9}\u{65e5}", k)).collect();
+                let mut s = canonical_text(&vals).into_bytes();
+                s.push(b'\n');
+                let l = s.len();
+                q.push(json!({"chunks": cut(&s, &(1..l).filter(|i| i % 300_000 == 0).collect::<Vec<_>>())}));
             }
             // scale: one record larger than 64 KiB, full of multi-byte characters, so that many
             // writes end inside a character while nothing is complete yet
